@@ -455,18 +455,33 @@ func (s *sim) handleReady(r *replica, rd *raft.Ready) {
 		}
 	}
 	msgs := processMessages(rd.Messages)
+	// node/raft.go: a Ready whose commit index covers its own unstable entries
+	// (single-voter leader) is persisted before anything is sent or applied
+	persistFirst := s.cfg.prodOrder && raft.IsEmptySnap(rd.Snapshot) && shouldPersistFirst(rd)
+	if persistFirst {
+		s.c.Probe("persist_first")
+		if s.subCrash(r, "before_persist") {
+			return
+		}
+		r.persist(rd)
+		if s.subCrash(r, "after_persist") {
+			return
+		}
+	}
 	if newLeader && s.cfg.prodOrder {
 		s.send(r, msgs)
 		if s.subCrash(r, "after_leader_send") {
 			return
 		}
 	}
-	if s.subCrash(r, "before_persist") {
-		return
-	}
-	r.persist(rd)
-	if s.subCrash(r, "after_persist") {
-		return
+	if !persistFirst {
+		if s.subCrash(r, "before_persist") {
+			return
+		}
+		r.persist(rd)
+		if s.subCrash(r, "after_persist") {
+			return
+		}
 	}
 	if !raft.IsEmptySnap(rd.Snapshot) {
 		r.st.ApplySnapshot(rd.Snapshot)
@@ -489,6 +504,21 @@ func (s *sim) handleReady(r *replica, rd *raft.Ready) {
 		return
 	}
 	s.guard(r, "Advance", func() { r.n.Advance(*rd) })
+}
+
+// shouldPersistFirst mirrors node/raft.go.
+func shouldPersistFirst(rd *raft.Ready) bool {
+	if len(rd.Entries) == 0 {
+		return false
+	}
+	first := rd.Entries[0].Index
+	if !raft.IsEmptyHardState(rd.HardState) && rd.HardState.Commit >= first {
+		return true
+	}
+	if n := len(rd.CommittedEntries); n > 0 && rd.CommittedEntries[n-1].Index >= first {
+		return true
+	}
+	return false
 }
 
 // processMessages mirrors node/raft.go: only the last MsgAppResp of a Ready is sent.
